@@ -158,6 +158,7 @@ func (tree *Tree[T]) Clean(prefix string) {
 	}
 
 	tree.node.clean(prefix)
+	tree.rebuildMethods()
 }
 
 // Remove 移除路由项
@@ -206,7 +207,7 @@ func (tree *Tree[T]) Remove(pattern string, methods ...string) {
 		child = child.parent
 	}
 
-	tree.buildMethods(-1, methods...)
+	tree.rebuildMethods()
 }
 
 // 获取指定的节点，若节点不存在，则在该位置生成一个新节点。
